@@ -44,6 +44,7 @@ type Job struct {
 	Sub     string   // sub-workload inside vfh
 	Mode    string   // "prod" | "test" (process mode the library sees)
 	Race    bool     // run the -race build
+	Variant string   // if set: the build of the workload with this extra build tag (Plan.Variants)
 	Parent  string   // if set: the child is started by a process whose argv[0] ends in /<Parent> (what a program sees when a debugger such as dlv launched it)
 	From    int      // case index range [From,To)
 	To      int      //
@@ -65,8 +66,9 @@ type Plan struct {
 	Level       string // exploration | fault_enumeration
 	Rule        string
 	Assumptions []string
-	Race        bool // needs the race build
-	NoInline    bool // thorough tier also needs a build without inlining
+	Race        bool     // needs the race build
+	Variants    []string // extra build tags: one more build of the workload per tag (vfh-<tag>)
+	NoInline    bool     // thorough tier also needs a build without inlining
 	Exhaustive  func(tier string) bool
 	Jobs        func(tier string, seed int64) []Job
 	// Floors: minimal totals of counters; below → inconclusive ("observed nothing").
@@ -91,6 +93,7 @@ type Replay struct {
 	Mode     string          `json:"mode"`
 	Race     bool            `json:"race,omitempty"`
 	Parent   string          `json:"started_by,omitempty"`
+	Variant  string          `json:"build_variant,omitempty"`
 	NoInl    bool            `json:"noinline_build,omitempty"`
 	Seed     int64           `json:"seed"`
 	Tier     string          `json:"tier"`
@@ -228,7 +231,7 @@ func main() {
 		}
 		var jobs []Job
 		if replay != nil {
-			jobs = []Job{{Sub: replay.Sub, Mode: replay.Mode, Parent: replay.Parent, Race: replay.Race, NoInl: replay.NoInl, From: replay.From, To: replay.To, Args: replay.Args, Env: replay.Env, Procs: replay.Procs, Only: replay.Idx, Timeout: 10 * time.Minute}}
+			jobs = []Job{{Sub: replay.Sub, Mode: replay.Mode, Parent: replay.Parent, Variant: replay.Variant, Race: replay.Race, NoInl: replay.NoInl, From: replay.From, To: replay.To, Args: replay.Args, Env: replay.Env, Procs: replay.Procs, Only: replay.Idx, Timeout: 10 * time.Minute}}
 		} else {
 			jobs = plan.Jobs(tier, seed)
 			for i := range jobs {
@@ -326,6 +329,21 @@ func buildVfh(plan *Plan, replay *Replay) error {
 			return err
 		}
 	}
+	for _, v := range plan.Variants {
+		// the workload built with an extra build tag (a tag of the LIBRARY that switches code on, e.g. verbose)
+		args := []string{"build", "-modfile=" + filepath.Join(buildDir, "go.mod"), "-tags", "verif " + v, "-o", filepath.Join(buildDir, "vfh-"+v), "./cmd/vfh"}
+		cmd := exec.Command("go", args...)
+		cmd.Dir = filepath.Join(verifDir, "harness")
+		cmd.Env = goEnv()
+		if out, err := cmd.CombinedOutput(); err != nil {
+			return fmt.Errorf("go build -tags %s: %v\n%s", v, err, out)
+		}
+		link := filepath.Join(buildDir, "vfh-"+v+".test")
+		os.Remove(link)
+		if err := os.Symlink("vfh-"+v, link); err != nil {
+			return err
+		}
+	}
 	if plan.NoInline && (tier == "thorough" || (replay != nil && replay.NoInl)) {
 		args := []string{"build", "-modfile=" + filepath.Join(buildDir, "go.mod"), "-tags", "verif", "-gcflags=all=-l", "-o", filepath.Join(buildDir, "vfh-noinl"), "./cmd/vfh"}
 		cmd := exec.Command("go", args...)
@@ -373,6 +391,9 @@ func runJob(j *Job) {
 	}
 	if j.NoInl {
 		bin = "vfh-noinl"
+	}
+	if j.Variant != "" {
+		bin = "vfh-" + j.Variant
 	}
 	var args []string
 	if j.Mode == "test" {
@@ -749,7 +770,7 @@ func report(plan *Plan, agg *Agg, findings []Finding, wall time.Duration, replay
 		r := Replay{Property: prop, Seed: seed, Tier: tier, Idx: v.Idx, Clause: v.Clause, Sig: s, Detail: v.Detail, Case: v.Case}
 		if v.job != nil {
 			r.Sub, r.Mode, r.Race, r.NoInl, r.From, r.To, r.Args, r.Env, r.Procs = v.job.Sub, v.job.Mode, v.job.Race, v.job.NoInl, v.job.From, v.job.To, v.job.Args, v.job.Env, v.job.Procs
-			r.Parent = v.job.Parent
+			r.Parent, r.Variant = v.job.Parent, v.job.Variant
 			if v.Clause == "crash" {
 				r.Stderr = tail(v.job.base+".stderr", 4000)
 			}
